@@ -53,6 +53,18 @@ def values_for(ctx) -> List[Any]:
     return vals
 
 
+DEEP_DEPTHS = [200, 253, 254, 255, 256, 257, 300, 512, 999, 1000, 1001, 1023, 1024, 1025, 1026, 1100, 1300]
+DEEP_LEAVES = [1, "x\u2028\u00e9", None, 2**63, -0.0, {"a": [None, 1.5]}]
+
+
+def deep_specs(ctx):
+    out = []
+    for d in DEEP_DEPTHS:
+        for j, kind in enumerate("ldm"):
+            out.append((kind, d, DEEP_LEAVES[(d + j) % len(DEEP_LEAVES)]))
+    return out
+
+
 def _run_worker(backend: str, inp: str, outp: str):
     r = subprocess.run([PY, "-B", "-m", "vf.workers.json_worker", backend, inp, outp], env=child_env(), cwd=ROOT,
                        capture_output=True, text=True, timeout=1200)
@@ -66,7 +78,8 @@ def run(ctx):
     tmp = tempfile.mkdtemp(prefix="vf_c17_")
     try:
         inp = os.path.join(tmp, "in.pkl")
-        pickle.dump({"values": vals, "foreign": None}, open(inp, "wb"))
+        deep = deep_specs(ctx) if ctx.shard[0] == 0 else []
+        pickle.dump({"values": vals, "foreign": None, "deep": deep}, open(inp, "wb"))
         first = {b: _run_worker(b, inp, os.path.join(tmp, f"out1_{b}.pkl")) for b in ("orjson", "stdlib")}
         if first["orjson"]["has_orjson"] is not True or first["stdlib"]["has_orjson"] is not False:
             ctx.inconclusive_because(f"backend selection not effective: orjson worker HAS_ORJSON="
@@ -133,6 +146,43 @@ def run(ctx):
         ctx.record(case, shape=None, nontrivial=nontrivial,
                    cls=type(v).__name__ + (":same" if shapes[0] == shapes[1] else ":differ"),
                    sample={"value": v, "orjson": shapes[0], "stdlib": shapes[1]})
+    # ---- very deep values: nesting beyond what the fast backend encodes (254) / decodes (1024) natively ---------
+    for j, (kind, depth, leaf) in enumerate(deep):
+        case = {"deep": [kind, depth, leaf]}
+        shapes = []
+        for b in ("orjson", "stdlib"):
+            rec = first[b]["deep"][j]
+            other = first["stdlib" if b == "orjson" else "orjson"]["deep"][j]
+            for form in ("enc", "enc_kw"):
+                ctx.count("deep_encodings")
+                r = rec[form]
+                if r[0] != "ok":
+                    mech = "deep_value_backend_dependent" if other[form][0] == "ok" else "encode_failed"
+                    ctx.violation(mech, f"{b}: could not encode ({form}) a value nested {depth} levels ({kind}): {r[1]}", case)
+                else:
+                    if not r[1]:
+                        ctx.violation("self_round_trip", f"{b}: encoding ({form}) of a value nested {depth} levels is not the expected text", case)
+                    if r[2]:
+                        ctx.violation("raw_line_break_in_encoding", f"{b} ({form}): raw line break in deep encoding", case)
+            for form in ("dec_compact", "dec_spaced", "dec_bytes"):
+                ctx.count("deep_decodings")
+                r = rec[form]
+                if r[0] != "ok":
+                    mech = "deep_value_backend_dependent" if other[form][0] == "ok" else "decode_failed"
+                    ctx.violation(mech, f"{b}: could not decode ({form}) a document nested {depth} levels ({kind}): {r[1]}", case)
+                elif r[1][0] != "leaf" or tagged(r[1][1]) != tagged(leaf):
+                    ctx.violation("cross_round_trip", f"{b}: decoding ({form}) a document nested {depth} levels gave {r[1]!r}", case)
+            r = rec["file"]
+            if r[0] != "ok" and other["file"][0] != "ok":
+                # the streaming encoder of the standard library recurses in Python and gives up near 1000 levels under
+                # either backend alike: not a backend dependence
+                ctx.count("deep_file_api_fails_under_both_backends")
+            elif r[0] != "ok" or r[1][0] != "leaf" or tagged(r[1][1]) != tagged(leaf):
+                mech = "file_api_backend_dependent" if other["file"][0] == "ok" and r[0] != "ok" else "file_round_trip"
+                ctx.violation(mech, f"{b}: dump()/load() of a value nested {depth} levels: {r!r}", case)
+            shapes.append([rec[f][0] for f in ("enc", "enc_kw", "dec_compact")])
+        ctx.record(case, shape=shapes, nontrivial=True, cls=f"deep:{kind}:{'>254' if depth > 254 else '<=254'}{':>1024' if depth > 1024 else ''}",
+                   sample={"kind": kind, "depth": depth, "leaf": leaf, "orjson": shapes[0], "stdlib": shapes[1]})
     ctx.exhaustive = None
     ctx.extra["grammar_values"] = len(gen.grammar(3 if ctx.tier == "thorough" else 2))
     ctx.require_reached("cross_decodes")
